@@ -266,6 +266,12 @@ func genC02(t *rapid.T) C02Case {
 					c.P = 1
 				}
 			}
+		} else if rapid.IntRange(0, 7).Draw(t, "pow2near") == 0 {
+			// base-10 mantissa with a binary exponent of any size whose value lies a hair from a number of P digits (the
+			// constructed literals of C12): whatever is stored, the accuracy must be the sign of (stored - exact). (The
+			// exact value comes from the 700-bit reference: LV is not used.)
+			pc := genC12Pow2Near(t)
+			c.Lit, c.P, c.M, c.LV = pc.S, pc.P, pc.M, nil
 		}
 	}
 	c.Z = genRecvPrev(t, c.P, c.M)
@@ -385,6 +391,26 @@ func c02Run(c C02Case, o *h.Obs) (got h.Snap, exact model.X, ok bool, fail *h.Fa
 		if err != nil || !okk {
 			o.Label(c.Op + ":rejected")
 			return h.Read(z), exact, false, nil
+		}
+		if c.LV == nil {
+			body := strings.TrimPrefix(c.Lit, "-")
+			i := strings.IndexByte(body, 'p')
+			if i < 0 {
+				return got, exact, false, h.Failf("bad-case", "literal %q without a value", c.Lit)
+			}
+			m, ok1 := new(big.Int).SetString(body[:i], 10)
+			k, e2 := strconv.ParseInt(body[i+1:], 10, 64)
+			ex, ok2 := model.X{}, false
+			if ok1 && e2 == nil {
+				ex, ok2 = c12Pow2Exact(m, k, int(z.Prec())+125)
+			}
+			if !ok2 {
+				o.Label(c.Op + ":no-reference")
+				return h.Read(z), exact, false, nil
+			}
+			ex.Neg = strings.HasPrefix(c.Lit, "-")
+			o.Label(c.Op + ":decimal-mantissa-binary-exponent")
+			return h.Read(z), ex, true, nil
 		}
 		exact = model.X{Val: c.LV.Val()}
 	default:
